@@ -2,6 +2,7 @@
 package conc
 
 import (
+	"context"
 	"fmt"
 	"net/http"
 	"net/url"
@@ -530,4 +531,89 @@ func TruncateStorm(run *kit.Run) {
 		run.Violate("truncate-storm", *m, nil)
 	}
 	run.Count("truncate_storm_requests", served.Load())
+}
+
+// FirstUse: whatever a route builds lazily is built once and safely. On many fresh routers, a route with its own
+// middleware is used for the very first time by all goroutines at the same instant (released by a barrier): manual
+// dispatch after Lookup through Route.HandleMiddleware, Route.Handle, and a request through the router. Every call
+// must run exactly the chain the route was created with.
+func FirstUse(run *kit.Run) {
+	rounds := run.Pick(60, 1500)
+	workers := 2 * runtime.GOMAXPROCS(0)
+	var bad atomic.Pointer[string]
+	var calls atomic.Int64
+	type traceKey struct{}
+	for round := 0; round < rounds && bad.Load() == nil; round++ {
+		f, err := fox.New()
+		if err != nil {
+			run.Inconclusive("fox.New: %v", err)
+			return
+		}
+		mw := func(id string) fox.MiddlewareFunc {
+			return func(next fox.HandlerFunc) fox.HandlerFunc {
+				return func(c fox.Context) {
+					if t, _ := c.Request().Context().Value(traceKey{}).(*[]string); t != nil {
+						*t = append(*t, id)
+					}
+					next(c)
+				}
+			}
+		}
+		h := func(c fox.Context) {
+			if t, _ := c.Request().Context().Value(traceKey{}).(*[]string); t != nil {
+				*t = append(*t, "handler")
+			}
+		}
+		pattern := []string{"/fu/{id}", "/fu/*{rest}/end", "h.com/fu/{id}"}[round%3]
+		host, path := "", "/fu/1"
+		switch round % 3 {
+		case 1:
+			path = "/fu/a/b/end"
+		case 2:
+			host = "h.com"
+		}
+		if _, err := f.Handle("GET", pattern, h, fox.WithMiddleware(mw("m1"), mw("m2"))); err != nil {
+			run.Inconclusive("Handle: %v", err)
+			return
+		}
+		start := make(chan struct{})
+		var wg sync.WaitGroup
+		for g := 0; g < workers; g++ {
+			wg.Add(1)
+			go func(g int) {
+				defer wg.Done()
+				var trace []string
+				req := (&http.Request{Method: "GET", Host: host, URL: &url.URL{Path: path}, Header: http.Header{}, Proto: "HTTP/1.1", ProtoMajor: 1, ProtoMinor: 1}).WithContext(context.WithValue(context.Background(), traceKey{}, &trace))
+				<-start
+				want := "m1 m2 handler"
+				switch g % 3 {
+				case 0:
+					if rte, cc, _ := f.Lookup(nil, req); rte != nil {
+						rte.HandleMiddleware(cc)
+						cc.Close()
+					}
+				case 1:
+					f.ServeHTTP(&flipW{h: http.Header{}}, req)
+				default:
+					if rte, cc, _ := f.Lookup(nil, req); rte != nil {
+						rte.Handle(cc)
+						cc.Close()
+					}
+					want = "handler"
+				}
+				calls.Add(1)
+				if got := strings.Join(trace, " "); got != want {
+					m := fmt.Sprintf("first use of a fresh route (%s) by %d goroutines at once: one of them ran the chain [%s], the route was created with [%s]", pattern, workers, got, want)
+					bad.CompareAndSwap(nil, &m)
+				}
+			}(g)
+		}
+		close(start)
+		wg.Wait()
+		run.Case(fmt.Sprintf("first-use|%d", round), true)
+	}
+	if m := bad.Load(); m != nil {
+		run.Violate("first-use", *m, nil)
+	}
+	run.Count("first_use_calls", calls.Load())
 }
